@@ -9,10 +9,13 @@ for d in seeded/${1:-C*}/; do
   cd /verif; rm -rf replays/$id
   ./check $id quick > /tmp/reg_$id.log 2>&1
   f=$(ls replays/$id/*.json 2>/dev/null | head -1)
-  if [ -n "$f" ]; then mkdir -p regressions/$id; python3 - "$f" "regressions/$id/seeded-$name.json" "$name" <<'PY'
-import json,sys
+  if [ -n "$f" ]; then python3 - "$f" "$id" "$name" <<'PY'
+import json,sys,os
 d=json.load(open(sys.argv[1]))
-json.dump({"property":sys.argv[3][:3],"signature":d["signature"],"note":"input that exposes the seeded change /verif/seeded/%s (passes on the unchanged tree)"%sys.argv[3],"input":d["input"]},open(sys.argv[2],"w"))
+# inputs found by a property's second harness (vtrace) are replayed by that harness only
+dirn="regressions/%s%s"%(sys.argv[2], "-tracing" if d.get("harness")=="vtrace" and sys.argv[2]!="C20" else "")
+os.makedirs(dirn,exist_ok=True)
+json.dump({"property":sys.argv[3][:3],"signature":d["signature"],"harness":d.get("harness","vcheck"),"note":"input that exposes the seeded change /verif/seeded/%s (passes on the unchanged tree)"%sys.argv[3],"input":d["input"]},open("%s/seeded-%s.json"%(dirn,sys.argv[3]),"w"))
 PY
     echo "$name: kept $(python3 -c "import json;print(json.load(open('$f'))['signature'])")"
   else echo "$name: no replay produced"; fi
